@@ -78,6 +78,18 @@ def hand_cond_zip(x: fp.Real, y: fp.Real, xs: list[fp.Real], k: fp.Real):
     zs = [e for e in xs]
     t = [acc + e for e in zs] if y > 100 else [b2 + a2 for a2, b2 in zip(xs, [x, y])]
     return (acc + len(xs), ys, zs, len(t))''',
+    'hand_early_return_zip': '''@fp.fpy
+def hand_early_return_zip(x: fp.Real, y: fp.Real, xs: list[fp.Real], k: fp.Real):
+    for e in xs:
+        if e > 100:
+            return e
+    if len(xs) < 3:
+        return x
+    ws = [x, y, x]
+    acc = 0
+    for a, b in zip(ws, xs):
+        acc = acc + a * b
+    return acc''',
     'hand_phi': '''@fp.fpy
 def hand_phi(x: fp.Real, y: fp.Real, xs: list[fp.Real], k: fp.Real):
     a = x
